@@ -12,6 +12,7 @@ from ural.infer_redirection import infer_redirection as resolve
 from ural.ensure_protocol import ensure_protocol
 from ural.tld import split_suffix
 from ural.quote import upper_quoted
+from ural.patterns import CONTROL_CHARS_RE
 
 LANG_QUERY_KEYS = ("gl", "hl")
 
@@ -67,8 +68,11 @@ def get_fingerprinted_hostname(url, infer_redirection=True, strip_suffix=False):
     if isinstance(url, SplitResult):
         splitted = url
     else:
+        # NOTE: same cleaning as in `normalize_url`
+        url = CONTROL_CHARS_RE.sub("", url).strip()
+
         try:
-            splitted = urlsplit(ensure_protocol(url.strip()))
+            splitted = urlsplit(ensure_protocol(url))
         except ValueError:
             return None
 
